@@ -68,6 +68,23 @@ theorem C09_distinct_concurrent (fs0 : Fs) (ss : List Strategy) (ops : List Op)
   have h := run_inv ss hl ops { fs := fs0, active := [] } ⟨by simp, by simp⟩
   exact ⟨h.2, h.1⟩
 
+/-- **No refusal without reason** (so the theorems above are not vacuous: "raises" is not the way
+the code satisfies them). A chain that contains the default strategy chooses a path for every remote
+path that has at least one usable component (one that is not empty, `.` or `..`); and without such
+a component the default strategy raises (`IndexError`, no path chosen). -/
+theorem C09_chooses (fs : Fs) (ss : List Strategy) (remote : List Char)
+    (hp : localParts remote ≠ []) (hd : Strategy.default ∈ ss) :
+    ∃ d n, chain fs ss remote = .ok (d, n) := by
+  obtain ⟨st', h, hreg⟩ := chainAux_ok fs remote hp ss ([], []) inv_init (Or.inr hd)
+  refine ⟨st'.1, st'.2, ?_⟩
+  unfold chain
+  rw [h]
+  have : st'.2.isEmpty = false := by
+    cases hn : st'.2 with
+    | nil => exact absurd hn hreg.1
+    | cons _ _ => rfl
+  simp [this]
+
 /-! ### Non-vacuity: the theorems talk about paths that are really chosen -/
 
 section Examples
